@@ -11,3 +11,17 @@ contract("C04.tag_eq", file="hed/models/hed_tag.py", func="HedTag.__eq__",
              "C04.eq.same_short_form_in_any_spelling_and_case": "implies(self.short_tag.casefold() == other.short_tag.casefold(), result)",
          },
          assume=["distinct-parameter aliasing is admitted here: self may be other"])
+
+# C04 "the outcome does not depend on sibling order": the loops that judge the top-level temporal groups treat every group on its own -
+# no value computed for one group reaches a later one, the issue list is only extended, no group is skipped by a break.
+# Decided by def-before-use analysis of the real loop bodies (pyvc/dataflow.py), not by a solver.
+IND = {"dataflow_only": True, "no_frame": True}
+contract("C04.duration_groups_judged_independently", file="hed/validator/util/group_util.py", func="GroupValidator.validate_duration_tags",
+         params={"hed_string_obj": "Opaque"}, returns="Opaque", enc="native", also=["C01"],
+         ghost=dict(IND, independent_iterations={0: ["duration_issues"]}), ensures={})
+contract("C04.onset_groups_judged_independently", file="hed/validator/def_validator.py", func="DefValidator.validate_onset_offset",
+         params={"self": "Opaque", "hed_string_obj": "Opaque"}, returns="Opaque", enc="native", also=["C01", "C10"],
+         ghost=dict(IND, independent_iterations={0: ["onset_issues"]}), ensures={})
+contract("C04.tags_judged_independently", file="hed/validator/hed_validator.py", func="HedValidator._validate_individual_tags_in_hed_string",
+         params={"self": "Opaque", "hed_string_obj": "Opaque", "allow_placeholders": "Opaque"}, returns="Opaque", enc="native", also=["C01"],
+         ghost=dict(IND, independent_iterations={0: ["validation_issues"], 1: ["validation_issues"]}), ensures={})
